@@ -38,10 +38,32 @@ def mv(a, v):
     return tuple(sum(a[i][k] * v[k] for k in range(2)) for i in range(2))
 
 
+def front_rule(index: RepoIndex, rep, rule: str, g=None, gi=None) -> None:
+    """Agent.front() denotes the cell one step ahead, position + M(heading)·delta(FORWARD),
+    for every heading (shared by the rules about the faced cell: C10, C18)"""
+    g = g or Geometry(index)
+    gi = gi or GeoInterp(g)
+    af = index.func('gym_gridverse/agent.py', 'Agent.front')
+    for o in g.orients:
+        Tt = ('T', P('py', 'px'), ('O', o))
+        # an expression the pose algebra cannot interpret is not a verdict (exit 2)
+        r = gi.call(af, {af.node.args.args[0].arg: Tt})
+        d = g.delta[o]
+        ok = r == ('P', (Aff.sym('py') + d[0], Aff.sym('px') + d[1]))
+        rep.check(ok, rule, 'gym_gridverse/agent.py', 'Agent.front', af.node.lineno,
+                  'Agent.front', f'Agent.front with heading {o} is {r}, not one cell ahead',
+                  f'front {o}')
+
+
 def run(index: RepoIndex, rep) -> None:
     rep.rule('C18.R9', 'outside the rotation operators, geometry keeps row and column quantities apart (axis typing, E14)', floor=1)
     from ..axes import axis_rule
     axis_rule(index, rep, 'C18.R9', ('gym_gridverse/geometry.py',), floor=12)
+    rep.rule('C18.R10', 'no fixed number of names is unpacked from a set of computed values '
+             '(degenerate areas and offsets collapse it) (E15)', floor=40)
+    from ..unpack import unpack_rule
+    unpack_rule(index, rep, 'C18.R10', ('gym_gridverse/geometry.py', 'gym_gridverse/grid.py',
+                                        'gym_gridverse/envs/utils.py'))
     rep.rule('C18.R8', 'geometry operators and grid rotations are pure functions of their '
              'operands (no in-place update, no cache)', floor=15)
     purity(index, rep)
@@ -250,18 +272,7 @@ def run(index: RepoIndex, rep) -> None:
     T1 = ('T', P('py', 'px'), ('O', 'LEFT'))
     rep.check(gi.mul(ident, T1) == T1 and gi.mul(T1, ident) == T1, 'C18.R5', f,
               'Transform.__mul__', tl, 'identity', '((0,0), FORWARD) is not a two-sided identity')
-    af = index.func('gym_gridverse/agent.py', 'Agent.front')
-    for o in O:
-        Tt = ('T', P('py', 'px'), ('O', o))
-        try:
-            r = gi.call(af, {af.node.args.args[0].arg: Tt})
-            d = g.delta[o]
-            ok = r == ('P', (Aff.sym('py') + d[0], Aff.sym('px') + d[1]))
-        except AnalysisError:
-            r, ok = None, False
-        rep.check(ok, 'C18.R5', 'gym_gridverse/agent.py', 'Agent.front', af.node.lineno,
-                  'Agent.front', f'Agent.front with heading {o} is {r}, not one cell ahead',
-                  f'front {o}')
+    front_rule(index, rep, 'C18.R5', g, gi)
 
     # ---- R6 grid rotations
     gl = index.table(GRID, '_grid_rotation_functions').lineno
